@@ -15,6 +15,6 @@ check('C03', 'proof',
       'Trusted: Coq kernel+VM, harness generators and fingerprints, the mapping of tenpy operations to the eleven transformers in '
       'harness/c03.py:judge.  The value of a tensor is (dense values, dtype, labels, qtotal, identity+content of legs); _qdata order and memory '
       'layout are representation.  A write through a shallow copy may or may not be visible through the other reference (Array.copy docstring): '
-      'only consistency and per-object labels/legs/qtotal are required of shallow copies.  Known findings: F62-C03 (python make_valid reduces '
-      'the caller\'s qtotal array in place), F49-C03 (setitem through a shallow copy leaves the sibling inconsistent).',
+      'only consistency and per-object labels/legs/qtotal are required of shallow copies.  Findings: F62-C03 (python make_valid reduced '
+      'the caller\'s qtotal array in place; fixed in /repo since), F49-C03 (setitem through a shallow copy leaves the sibling inconsistent).',
       'Coq proof on a store model + differential correspondence of change sets + fingerprint oracle', '5.C03')
